@@ -471,6 +471,8 @@ def rule_guardpair(E, R):
 
 def run(F, R, tier):
     E = F.engine
+    import witness
+    witness.report(R, "W08", "W08")
     rule_writers(E, R)
     rule_setguard(E, R)
     rule_execguard(E, R)
